@@ -167,7 +167,12 @@ impl Token for SnapTokenClaims {
     }
 
     fn exp_time(&self) -> SystemTime {
-        SystemTime::UNIX_EPOCH + std::time::Duration::from_secs(self.exp)
+        // Saturate instead of overflowing on absurdly large expiration values.
+        SystemTime::UNIX_EPOCH
+            .checked_add(std::time::Duration::from_secs(self.exp))
+            .unwrap_or(
+                SystemTime::UNIX_EPOCH + std::time::Duration::from_secs(i64::MAX as u64 / 2),
+            )
     }
 
     fn required_claims() -> Vec<&'static str> {
